@@ -34,8 +34,7 @@ Section Pipeline.
 End Pipeline.
 
 (* The order on states (src/state/packed.rs, src/state/potential.rs): PartialEq / PartialOrd compare the
-   SCORES with f64's own comparison; either score undefined (or NaN) gives "unordered".  Ord::cmp is
-   partial_cmp().unwrap() and std::cmp::max(a, b) keeps b unless a is Greater. *)
+   SCORES with f64's own comparison; either score undefined (or NaN) gives "unordered". *)
 Section Order.
   Variable NN : Num.
   Notation T := (carrier NN).
@@ -56,8 +55,12 @@ Section Order.
   Definition score_eq (a b : option T) : bool :=
     match a, b with Some s, Some o => s =? o | _, _ => false end.
 
-  (* std::cmp::max on two states with these scores: Some true = the first is kept, Some false = the
-     second; None = Ord::cmp panics (unwrap on None) *)
-  Definition max_keeps_first (a b : option T) : option bool :=
-    match score_cmp a b with Some Gt => Some true | Some _ => Some false | None => None end.
+  (* std::cmp::max(a, b) = Ord::max = `if other < self { self } else { other }` (core::cmp, as compiled here;
+     rayon's ParallelIterator::max is reduce_with(Ord::max)): `<` is PartialOrd::lt, i.e. partial_cmp == Less,
+     so an unordered pair keeps the SECOND argument and nothing panics.  true = the first is kept. *)
+  Definition max_keeps_first (a b : option T) : bool :=
+    match score_cmp b a with Some Lt => true | _ => false end.
+
+  (* Iterator::max (sequential) folds with Ord::cmp = partial_cmp().unwrap(): None = a panic *)
+  Definition cmp_unwrap (a b : option T) : option comparison := score_cmp a b.
 End Order.
